@@ -232,7 +232,10 @@ Section Apply.
      its tree. *)
   Definition db := list (root * kvmap).
 
-  Definition has_root (d : db) (r : root) : bool := existsb (fun x => root_eqb (fst x) r) d.
+  (* HasRoot (badger.go:521-546, pathbadger.go:216-239): "an empty root is
+     always implicitly present" *)
+  Definition has_root (d : db) (r : root) : bool :=
+    digest_eqb (r_hash r) (root_of []) || existsb (fun x => root_eqb (fst x) r) d.
 
   (* NewWithRoot (tree.go:83-98): the empty hash opens the empty tree whatever
      the version; any other root must be stored. *)
@@ -279,7 +282,7 @@ Fixpoint run_attempts (d : db kvmap) (l : list attempt) : list (acode * bool) :=
   | [] => []
   | a :: r =>
       let (d', c) := capply d (at_src a) (at_dst a) (at_wl a) in
-      (c, has_root kvmap kvmap_eqb d' (at_dst a)) :: run_attempts d' r
+      (c, has_root kvmap kvmap_eqb (fun m => m) d' (at_dst a)) :: run_attempts d' r
   end.
 
 (* one case: contents at the start root, the batch, the state of the second
